@@ -137,6 +137,8 @@ def rustIntName : CTy → String
 
 /-- `const` variable of integer type: `VarType::Int(val)` printed by the signedness of the
 variable's own kind (`v` = the value clang evaluated, as `i64` bits) -/
+def emitVarWChar (v : Int) : Emit := .int "u32" (intLiteral false (wrap64 v))
+
 def emitVarInt (t : CTy) (v : Int) : Emit :=
   if t = .bool then .int "bool" (if v = 0 then "false".toList else "true".toList)
   else .int (rustIntName t) (intLiteral t.signed (wrap64 v))
@@ -158,12 +160,26 @@ inductive EVal
   | unsigned (v : Int)
   deriving DecidableEq, Repr
 
-/-- `Enum::from_ty`: `clang_getEnumConstantDeclValue` (as i64) when the underlying type is
-signed, `…UnsignedValue` (as u64) otherwise, `!= 0` for `bool` -/
+/-- `Enum::from_ty`: `clang_getEnumConstantDeclValue` (sign-extended to i64) when bindgen
+considers the underlying type signed, `…UnsignedValue` (the bits of the underlying type
+zero-extended to u64) otherwise, `!= 0` for `bool` -/
 def extractVal (t : CTy) (v : Int) : EVal :=
   if t = .bool then .boolean (v != 0)
   else if t.signed then .signed (wrap64 v)
-  else .unsigned (v % 18446744073709551616)
+  else .unsigned (v % 2 ^ t.bits)
+
+/-- `wchar_t`: a signed 32-bit `int` for the C compiler of this target, but
+`IntKind::WChar.is_signed()` is `false` and its Rust type is `u32`.  `wcharExtract` is what
+`extractVal` does for an enum whose underlying type is `wchar_t`; `emitVarWChar` what
+`Var::codegen` prints for `const wchar_t x = v`. -/
+def wcharExtract (v : Int) : EVal := .unsigned (v % 4294967296)
+
+/-- region `wchar_treated_unsigned` -/
+def wcharRegion (v : Int) : Bool := decide (v < 0)
+
+/-- region `enum_bool_translated` -/
+def enumBoolTranslated (translate : Bool) (isRust : Bool) (t : CTy) : Bool :=
+  t = .bool && translate && !isRust
 
 inductive Repr' | c (t : CTy) | rust (k : MKind)
   deriving DecidableEq, Repr
@@ -231,6 +247,17 @@ def emitVariants (isRust : Bool) (t : CTy) : List (String × Int) → List (EVal
 
 def emitEnum (style : EStyle) (t : CTy) (variants : List (String × Int)) : List EItem :=
   emitVariants style.isRust t variants []
+
+/-- an enum over `wchar_t`: the loop of `emitVariants` with `wcharExtract` -/
+def emitVariantsWChar (isRust : Bool) : List (String × Int) → List (EVal × String) → List EItem
+  | [], _ => []
+  | (n, v) :: rest, seen =>
+    let ev := wcharExtract v
+    match seenLookup seen ev with
+    | some first =>
+      (if isRust then EItem.aliasOf n first else EItem.lit n (variantLiteral isRust ev))
+        :: emitVariantsWChar isRust rest seen
+    | none => EItem.lit n (variantLiteral isRust ev) :: emitVariantsWChar isRust rest ((ev, n) :: seen)
 
 /-! reading the emitted items back: the value a Rust compiler assigns to each name
 (an alias denotes the value of the EARLIER item it names) -/
